@@ -891,7 +891,8 @@ func genFixture(t *rapid.T, rec *ev.Recorder, maxKeys int) *fixture {
 	f := &fixture{m: m, shape: shape, depth: depth}
 	f.backend = rapid.SampledFrom(kv.Backends).Draw(t, "src")
 	f.hist = genHistory(t, "hist")
-	memOnly := rapid.IntRange(0, 3).Draw(t, "srcMem") == 0
+	// the source is only read by the checkpoint creator; mostly in memory to keep cases cheap
+	memOnly := rapid.IntRange(0, 3).Draw(t, "srcMem") != 0
 	f.dir = kv.TempDir("c12-")
 	var err error
 	f.src, f.root, err = buildSource(f.backend, filepath.Join(f.dir, "src"), memOnly, m, f.hist)
@@ -1128,7 +1129,7 @@ func TestC12RoundTrip(t *testing.T) {
 // ---------------------------------------------------------------------------------------
 // TestC12Determinism.
 
-const ruleDeterminism = "case = contents (same generator, <=120 keys quick / <=1000 thorough) committed on a badger AND a pathbadger source with independently drawn histories, one chunk size; for EVERY thread count in {0,1,2,3,8,16,32}: " +
+const ruleDeterminism = "case = contents (same generator, <=80 keys quick / <=800 thorough) committed on a badger AND a pathbadger source with independently drawn histories, one chunk size; for EVERY thread count in {0,1,2,3,8,16,32} (thread count 0 and two drawn ones when that would write more than ~250 chunk files): " +
 	"CreateCheckpoint twice on the first source into fresh directories (second run optionally under a different GOMAXPROCS) and once on the other source; oracle: the three Metadata values are identical in every field incl. all chunk digests, " +
 	"the chunk bytes hash to the digests, every chunk verifies as a proof of the root, and the union of the leaves carried by all chunks is exactly the source contents (no key missing, none foreign, values equal); " +
 	"non-trivial = some thread count >=2 produced >=2 chunks; distinct = hash of root, histories and chunk size"
@@ -1161,7 +1162,7 @@ func TestC12Determinism(t *testing.T) {
 	ev.Trace = func() any { return trace }
 	rapid.Check(t, func(t *rapid.T) {
 		trace = nil
-		f := genFixture(t, rec, ev.Pick(120, 1000))
+		f := genFixture(t, rec, ev.Pick(80, 800))
 		if f == nil {
 			return
 		}
@@ -1171,7 +1172,7 @@ func TestC12Determinism(t *testing.T) {
 			other = "pathbadger"
 		}
 		hist2 := genHistory(t, "hist2")
-		src2, root2, err := buildSource(other, filepath.Join(f.dir, "src2"), rapid.IntRange(0, 1).Draw(t, "src2Mem") == 0, f.m, hist2)
+		src2, root2, err := buildSource(other, filepath.Join(f.dir, "src2"), rapid.IntRange(0, 3).Draw(t, "src2Mem") != 0, f.m, hist2)
 		if err != nil {
 			ev.Infra(t, "building the second source (%s, %+v): %v", other, hist2, err)
 		}
@@ -1191,7 +1192,7 @@ func TestC12Determinism(t *testing.T) {
 		}
 		nt := false
 		var seq *checkpoint.Metadata
-		// every chunk is a file: when all seven thread counts would create more than ~600 files,
+		// every chunk is a file: when all seven thread counts would create more than ~250 files,
 		// the case takes thread count 0 and two drawn ones (all counts are covered over the run)
 		tcs := threadCounts
 		estChunks := len(f.m)
@@ -1203,7 +1204,7 @@ func TestC12Determinism(t *testing.T) {
 		case cs >= 512:
 			estChunks = len(f.m)/3 + 1
 		}
-		if estChunks*21 > 600 {
+		if estChunks*21 > 250 {
 			tcs = append([]uint16{0}, rapid.Permutation(threadCounts[1:]).Draw(t, "threadSubset")[:2]...)
 			sort.Slice(tcs, func(i, j int) bool { return tcs[i] < tcs[j] })
 			rec.Label("thread-subset")
@@ -1356,7 +1357,7 @@ func TestC12Corruption(t *testing.T) {
 		cs := genChunkSize(t, len(f.m))
 		threads := rapid.SampledFrom(threadCounts).Draw(t, "threads")
 		dstBackend := rapid.SampledFrom(kv.Backends).Draw(t, "dst")
-		dstMem := rapid.IntRange(0, 3).Draw(t, "dstMem") == 0
+		dstMem := rapid.IntRange(0, 1).Draw(t, "dstMem") == 0
 		trace = append(trace, fmt.Sprintf("shape=%s keys=%d depth=%d src=%s hist=%+v root=%s cs=%d threads=%d dst=%s dstMem=%v", f.shape, len(f.m), f.depth, f.backend, f.hist, f.root.Hash.String()[:8], cs, threads, dstBackend, dstMem))
 		trace = append(trace, "contents:"+dumpModel(f.m))
 		fail := func(sig, format string, args ...any) {
@@ -1719,4 +1720,109 @@ func TestC12Corruption(t *testing.T) {
 	})
 }
 
-//TESTS
+// ---------------------------------------------------------------------------------------
+// Deterministic probes of the findings.
+
+// restoreAll restores every chunk in ascending order into dst (multipart already started) and
+// finalizes; returns a description of the first problem.
+func restoreAll(dst dbApi.NodeDB, cp *cpoint, root node.Root, m kv.Model) string {
+	rs, _ := checkpoint.NewRestorer(dst)
+	if err := rs.StartRestore(ctx, cp.meta); err != nil {
+		return "StartRestore: " + err.Error()
+	}
+	for i := range cp.chunks {
+		if r := restoreOne(rs, i, bytes.NewReader(cp.chunks[i])); r.err != nil || r.panicked != nil {
+			return fmt.Sprintf("RestoreChunk(%d of %d): %v %v", i, len(cp.chunks), r.err, r.panicked)
+		}
+	}
+	if err := dst.Finalize([]node.Root{root}); err != nil {
+		return "Finalize: " + err.Error()
+	}
+	return checkRestored(dst, root, m)
+}
+
+// TestC12KFDepthLimit: keys 0x00*i for i = 0..129 nest 129 internal nodes. The tree commits and
+// CreateCheckpoint succeeds, but every chunk is a proof anchored at the root and the proof verifier
+// refuses nodes deeper than 128 (syncer.maxProofDepth), so the checkpoint can never be restored.
+// 129 keys (128 nested nodes) restore fine.
+func TestC12KFDepthLimit(t *testing.T) {
+	rec := ev.New("C12", "TestC12KFDepthLimit", "deterministic probe of finding "+sigDepth+": prefix chain of 129 keys (control, must restore) and of 130 keys, both backends, chunk size 4096, threads 0 and 2", "")
+	defer rec.Flush()
+	for _, backend := range kv.Backends {
+		for _, nkeys := range []int{129, 130} {
+			for _, threads := range []uint16{0, 2} {
+				m := kv.Model{}
+				for i := 0; i < nkeys; i++ {
+					m[string(bytes.Repeat([]byte{0}, i))] = []byte{byte(i)}
+				}
+				dir := kv.TempDir("c12kf-")
+				src, root, err := buildSource(backend, "", true, m, history{First: 1, Nver: 1, Seed: 1})
+				if err != nil {
+					ev.Infra(t, "source: %v", err)
+				}
+				cp, err := makeCheckpoint(filepath.Join(dir, "cp"), src, root, 4096, threads)
+				if err != nil {
+					ev.Infra(t, "checkpoint: %v", err)
+				}
+				dst, _ := openDB(backend, "", true)
+				_ = dst.StartMultipartInsert(root.Version)
+				msg := restoreAll(dst, cp, root, m)
+				dst.Close()
+				src.Close()
+				_ = os.RemoveAll(dir)
+				rec.Case(true, ev.Fingerprint(backend, nkeys, int(threads)), fmt.Sprintf("%s keys=%d threads=%d: %q", backend, nkeys, threads, msg))
+				if msg != "" {
+					if nkeys <= depthLimit+1 {
+						ev.Violation(t, "restore-rejects-honest-chunk", "%s: chain of %d keys (depth %d) does not restore: %s", backend, nkeys, nkeys-1, msg)
+					}
+					ev.Violation(t, sigDepth, "%s threads=%d: prefix chain of %d keys (%d nested internal nodes) is checkpointed into %d chunks but cannot be restored: %s", backend, threads, nkeys, nkeys-1, len(cp.chunks), msg)
+				}
+			}
+		}
+	}
+}
+
+// TestC12KFPathbadgerRestart: on pathbadger StartMultipartInsert(v), AbortMultipartInsert(),
+// StartMultipartInsert(v) (no chunk in between), then a complete restore and Finalize leaves a root
+// that cannot be read. The sequence number reserved by the first multipart insert is not released,
+// the second one gets sequence number 1, its nodes are written under pending keys, chunk batches
+// record no updated-node list, and Finalize copies nothing to the finalized keys.
+func TestC12KFPathbadgerRestart(t *testing.T) {
+	rec := ev.New("C12", "TestC12KFPathbadgerRestart", "deterministic probe of finding "+sigRestart+": two keys, one chunk; control without the aborted multipart insert and on badger must restore", "")
+	defer rec.Flush()
+	m := kv.Model{"a": []byte("1"), "b": []byte("2")}
+	for _, backend := range kv.Backends {
+		for _, restart := range []bool{false, true} {
+			dir := kv.TempDir("c12kf-")
+			src, root, err := buildSource("badger", "", true, m, history{First: 1, Nver: 1, Seed: 1})
+			if err != nil {
+				ev.Infra(t, "source: %v", err)
+			}
+			cp, err := makeCheckpoint(filepath.Join(dir, "cp"), src, root, 1<<20, 0)
+			if err != nil {
+				ev.Infra(t, "checkpoint: %v", err)
+			}
+			dst, _ := openDB(backend, "", true)
+			if restart {
+				if err := dst.StartMultipartInsert(root.Version); err != nil {
+					ev.Infra(t, "StartMultipartInsert: %v", err)
+				}
+				if err := dst.AbortMultipartInsert(); err != nil {
+					ev.Infra(t, "AbortMultipartInsert: %v", err)
+				}
+			}
+			_ = dst.StartMultipartInsert(root.Version)
+			msg := restoreAll(dst, cp, root, m)
+			dst.Close()
+			src.Close()
+			_ = os.RemoveAll(dir)
+			rec.Case(true, ev.Fingerprint(backend, restart), fmt.Sprintf("%s restart=%v: %q", backend, restart, msg))
+			if msg != "" {
+				if backend != "pathbadger" || !restart {
+					ev.Violation(t, "restored-contents-differ", "%s restart=%v: %s", backend, restart, msg)
+				}
+				ev.Violation(t, sigRestart, "pathbadger: StartMultipartInsert(1); AbortMultipartInsert(); StartMultipartInsert(1); restore the single chunk of {a,b}; Finalize: %s", msg)
+			}
+		}
+	}
+}
